@@ -8,10 +8,13 @@
 package main
 
 import (
+	"encoding/json"
 	"fmt"
 	"math/rand"
 	"os"
+	"regexp"
 	"sort"
+	"strconv"
 	"strings"
 	"sync"
 	"time"
@@ -22,15 +25,20 @@ import (
 	"google.golang.org/protobuf/proto"
 	"google.golang.org/protobuf/types/known/anypb"
 
+	networking "istio.io/api/networking/v1alpha3"
 	"istio.io/istio/pilot/pkg/model"
 	"istio.io/istio/pilot/pkg/xds"
 	xdsfake "istio.io/istio/pilot/test/xds"
 	"istio.io/istio/pkg/config"
+	"istio.io/istio/pkg/config/schema/gvk"
+	"istio.io/istio/pkg/util/sets"
+	kruntime "k8s.io/apimachinery/pkg/runtime"
 	"verifharness/internal/envoyclient"
 	"verifharness/internal/idle"
 	"verifharness/internal/quiet"
 	"verifharness/internal/vh"
 	"verifharness/internal/xdsshim"
+	"verifharness/internal/ztunnelclient"
 )
 
 func prop(id, rule string, run func(c *vh.Ctx)) vh.Prop {
@@ -44,10 +52,16 @@ func prop(id, rule string, run func(c *vh.Ctx)) vh.Prop {
 			"comparison is proto.Equal per resource name; inside a ClusterLoadAssignment lb_endpoints and localities are compared as sets; a resource that the same server regenerates differently without any change (nondeterminism, property C17) is excluded and counted",
 		},
 		Anchors:       []string{"pilot/pkg/xds/", "pkg/xds/server.go"},
-		MinNontrivial: func(t string) int { return map[string]int{"quick": 12, "thorough": 150}[t] },
+		MinNontrivial: minNontrivial(id, map[string]int{"quick": 12, "thorough": 150}),
 		Batches:       func(t string) int { return map[string]int{"quick": 6, "thorough": 14}[t] },
-		Parallel:      func(t string) int { return map[string]int{"quick": 6, "thorough": 14}[t] },
-		TimeoutSec:    func(t string) int { return map[string]int{"quick": 1200, "thorough": 5400}[t] },
+		Parallel: func(t string) int {
+			// XDSCONV_PARALLEL caps the children alive at once (development on a shared machine); batching is unaffected
+			if n, err := strconv.Atoi(os.Getenv("XDSCONV_PARALLEL")); err == nil && n > 0 {
+				return n
+			}
+			return map[string]int{"quick": 6, "thorough": 14}[t]
+		},
+		TimeoutSec: func(t string) int { return map[string]int{"quick": 1200, "thorough": 5400}[t] },
 		// no connection rate limiting: its timer waits would look like idleness
 		Env: []string{"PILOT_MAX_REQUESTS_PER_SECOND=1000000000000"},
 		Run: func(c *vh.Ctx) { quiet.Logs("error"); run(c) },
@@ -74,13 +88,21 @@ func main() {
 type proxySpec struct {
 	name, ns, ptype, ip string
 	labels              map[string]string
+	// mode: 0 = a SotW and a delta client, 1 = SotW client only, 2 = delta client only. Proxies backed by a
+	// Kubernetes pod have ONE connection per control plane: DiscoveryServer.ProxyUpdate (pod label change,
+	// pod arrival) addresses the first connection with the pod's IP only, as one proxy has one stream.
+	mode int
+	pod  bool // a pod with this name/namespace/IP exists in the Kubernetes world (strata K and Z)
 }
 
+func (p proxySpec) hasSotw() bool  { return p.mode != 2 }
+func (p proxySpec) hasDelta() bool { return p.mode != 1 }
+
 var proxies = []proxySpec{
-	{"client-a", "ns1", "sidecar", "10.50.0.1", map[string]string{"app": "client-a"}},
-	{"client-b", "ns2", "sidecar", "10.50.0.2", map[string]string{"app": "client-b"}},
-	{"plain", "ns3", "sidecar", "10.50.0.3", nil},
-	{"igw", "istio-system", "router", "10.50.0.4", map[string]string{"istio": "ingressgateway"}},
+	{name: "client-a", ns: "ns1", ptype: "sidecar", ip: "10.50.0.1", labels: map[string]string{"app": "client-a"}},
+	{name: "client-b", ns: "ns2", ptype: "sidecar", ip: "10.50.0.2", labels: map[string]string{"app": "client-b"}},
+	{name: "plain", ns: "ns3", ptype: "sidecar", ip: "10.50.0.3"},
+	{name: "igw", ns: "istio-system", ptype: "router", ip: "10.50.0.4", labels: map[string]string{"istio": "ingressgateway"}},
 }
 
 func newClient(p proxySpec, delta bool, suffix string) *envoyclient.Client {
@@ -113,23 +135,46 @@ type server struct {
 	srv    *xdsfake.FakeDiscoveryServer
 	gen    *genStats
 	pushes *pushLog
+	kube   bool // built with Kubernetes objects (strata K and Z): richer root-cause classes in keys
 }
 
 // pushLog records, per proxy, what each push request looked like before and after the
 // server's own per-proxy dependency filtering (public ProxyNeedsPush hook point).
 type pushEntry struct {
-	in, out []string
-	forced  bool
-	pushed  bool
+	in, out     []string
+	forced      bool
+	pushed      bool
+	targets     []string // hostnames of the proxy's service targets when the request was filtered (strata with Kubernetes objects)
+	proxyUpdate bool     // the request carries the ProxyUpdate reason (workload labels are recomputed for it)
+	addrs       []string // Address names announced as updated (ambient)
 }
 
 type pushLog struct {
-	mu sync.Mutex
-	by map[string][]pushEntry
+	mu    sync.Mutex
+	by    map[string][]pushEntry
+	stats map[string]*pushStats
+	total int
 }
 
 func (p *pushLog) add(id string, e pushEntry) {
 	p.mu.Lock()
+	p.total++
+	ps := p.stats[id]
+	if ps == nil {
+		ps = &pushStats{}
+		p.stats[id] = ps
+	}
+	switch classifyPush(e.in, e.forced) {
+	case "endpoint-only":
+		ps.endpointOnly++
+	case "full":
+		ps.full++
+	default:
+		ps.forced++
+	}
+	if !e.pushed {
+		ps.dropped++
+	}
 	p.by[id] = append(p.by[id], e)
 	if len(p.by[id]) > 400 {
 		p.by[id] = p.by[id][200:]
@@ -177,16 +222,31 @@ func (s *server) causeOf(p proxySpec, t, name string) string {
 	if t == envoyclient.CDS || t == envoyclient.EDS {
 		_, _, h, _ := model.ParseSubsetKey(name)
 		if h != "" && s.pushes.serviceKeyDropped(p.name+"."+p.ns, string(h)) {
-			return "service-key-dropped-by-proxy-dependency-filter"
+			return causeKeyDropped
 		}
+		if h != "" && s.kube {
+			// strata with Kubernetes objects: how did the hostname last reach this proxy's push requests?
+			return s.pushes.hostClass(p.name+"."+p.ns, string(h))
+		}
+	}
+	if s.kube && (resClass(t, name) == "inbound" || resClass(t, name) == "virtualInbound") && s.pushes.ownServiceKeyDropped(p.name+"."+p.ns) {
+		return "own-service-key-dropped-after-service-targets-recomputed"
+	}
+	if s.kube && (resClass(t, name) == "inbound" || resClass(t, name) == "virtualInbound") && s.pushes.endpointOnlyPushForOwnService(p.name+"."+p.ns) {
+		return "service-targets-not-refreshed-on-endpoints-push"
 	}
 	return "unknown"
 }
 
 func newServer(cfgs []config.Config, debounce time.Duration) *server {
+	return newServerK(cfgs, nil, debounce)
+}
+
+// newServerK additionally preloads the fake Kubernetes API server with kobjs (strata K and Z).
+func newServerK(cfgs []config.Config, kobjs []kruntime.Object, debounce time.Duration) *server {
 	f := vh.NewF()
-	srv := xdsfake.NewFakeDiscoveryServer(f, xdsfake.FakeOptions{Configs: cfgs, DebounceTime: debounce})
-	pl := &pushLog{by: map[string][]pushEntry{}}
+	srv := xdsfake.NewFakeDiscoveryServer(f, xdsfake.FakeOptions{Configs: cfgs, KubernetesObjects: kobjs, DebounceTime: debounce})
+	pl := &pushLog{by: map[string][]pushEntry{}, stats: map[string]*pushStats{}}
 	trace := os.Getenv("XDSCONV_TRACE") != ""
 	srv.Discovery.ProxyNeedsPush = func(proxy *model.Proxy, req *model.PushRequest) (*model.PushRequest, bool) {
 		in := keyStrings(req)
@@ -195,13 +255,22 @@ func newServer(cfgs []config.Config, debounce time.Duration) *server {
 		if ok {
 			out = keyStrings(r2)
 		}
-		pl.add(proxy.ID, pushEntry{in: in, out: out, forced: req.Forced, pushed: ok})
+		var targets, addrs []string
+		if kobjs != nil {
+			for _, st := range proxy.ServiceTargets {
+				if st.Service != nil {
+					targets = append(targets, string(st.Service.Hostname))
+				}
+			}
+			addrs = sets.SortedList(req.AddressesUpdated)
+		}
+		pl.add(proxy.ID, pushEntry{in: in, out: out, forced: req.Forced, pushed: ok, targets: targets, proxyUpdate: req.IsProxyUpdate(), addrs: addrs})
 		if trace {
 			fmt.Printf("TRACE push proxy=%s forced=%v keys=%v kept=%v needsPush=%v\n", proxy.ID, req.Forced, in, out, ok)
 		}
 		return r2, ok
 	}
-	return &server{f: f, srv: srv, gen: wrapGenerators(srv.Discovery), pushes: pl}
+	return &server{f: f, srv: srv, gen: wrapGenerators(srv.Discovery), pushes: pl, kube: kobjs != nil}
 }
 
 func (s *server) idleCond() bool {
@@ -233,6 +302,12 @@ func firstLine(s string) string {
 }
 
 func (s *server) apply(o op) error {
+	if o.Z != nil {
+		return nil // a step of the on-demand ztunnel, not of the control plane
+	}
+	if o.K != nil {
+		return s.applyKube(o)
+	}
 	st := s.srv.Store()
 	switch o.Verb {
 	case "create":
@@ -341,6 +416,44 @@ func resourceText(t string, a *anypb.Any) string {
 	return s
 }
 
+func resourceFullText(a *anypb.Any) string {
+	if a == nil {
+		return ""
+	}
+	m, err := a.UnmarshalNew()
+	if err != nil {
+		return ""
+	}
+	return prototext.MarshalOptions{Multiline: false}.Format(m)
+}
+
+var clusterRefRe = regexp.MustCompile(`outbound\|\d+\|[^|"]*\|([A-Za-z0-9.*_-]+)`)
+
+// hostsReferencedByOneOnly: hostnames of outbound clusters named in exactly one of two resource texts.
+func hostsReferencedByOneOnly(x, y string) []string {
+	in := func(t string) map[string]bool {
+		m := map[string]bool{}
+		for _, g := range clusterRefRe.FindAllStringSubmatch(t, -1) {
+			m[g[1]] = true
+		}
+		return m
+	}
+	a, b := in(x), in(y)
+	var out []string
+	for h := range a {
+		if !b[h] {
+			out = append(out, h)
+		}
+	}
+	for h := range b {
+		if !a[h] {
+			out = append(out, h)
+		}
+	}
+	sort.Strings(out)
+	return out
+}
+
 // firstTextDiff gives a short window around the first difference of two texts.
 func firstTextDiff(x, y string) string {
 	i := 0
@@ -366,29 +479,99 @@ func firstTextDiff(x, y string) string {
 
 type world struct {
 	c        *vh.Ctx
+	st       string // stratum: "" (config store only) | "k" | "z"
 	a        *server
-	sotw     []*envoyclient.Client
+	sotw     []*envoyclient.Client // indexed like proxies; nil where the proxy has no client of that protocol
 	delta    []*envoyclient.Client
+	kube     *kstate         // authoritative Kubernetes objects as applied (nil in the config-store stratum)
 	kindsCP  map[string]bool // kinds changed since the last checkpoint
 	hist     [][]op
 	applied  int               // batches applied
 	scenInfo map[string]string // c05: client name -> scenario text
+	// a Service exported to nobody (exportTo "~") was touched since the previous checkpoint
+	touchedUnexported bool
+	// pod-backed proxies whose pod was relabelled while not ready and has not become ready since (finding F2: the
+	// pod cache ignores the event, so the proxy's workload labels are stale until the pod is ready again)
+	proxyPodStale map[string]bool
+	// live ServiceEntries of the config store (namespace/name -> hosts), to recognise hostnames served by two registries
+	liveSE map[string][]string
+	// stratum Z: the long-lived ztunnel clients
+	z *zclients
 }
 
-func newWorld(c *vh.Ctx, debounce time.Duration) *world {
-	w := &world{c: c, a: newServer(nil, debounce), kindsCP: map[string]bool{}}
+func newWorld(c *vh.Ctx, debounce time.Duration) *world { return newWorldK(c, debounce, "", nil) }
+
+// newWorldK starts server A preloaded with the initial Kubernetes objects and connects the long-lived clients.
+func newWorldK(c *vh.Ctx, debounce time.Duration, st string, kinit []kruntime.Object) *world {
+	w := &world{c: c, st: st, kindsCP: map[string]bool{}}
+	if st != "" {
+		w.kube = newKstate(kinit)
+	}
+	w.a = newServerK(nil, w.kube.list(), debounce)
 	for _, p := range proxies {
-		s, d := newClient(p, false, ""), newClient(p, true, "")
+		var s, d *envoyclient.Client
+		if p.hasSotw() {
+			s = newClient(p, false, "")
+		}
+		if p.hasDelta() {
+			d = newClient(p, true, "")
+		}
 		w.sotw = append(w.sotw, s)
 		w.delta = append(w.delta, d)
-		s.Connect(w.a.srv.Discovery, envoyclient.Fault{}, false)
-		d.Connect(w.a.srv.Discovery, envoyclient.Fault{}, false)
+		if s != nil {
+			s.Connect(w.a.srv.Discovery, envoyclient.Fault{}, false)
+		}
+		if d != nil {
+			d.Connect(w.a.srv.Discovery, envoyclient.Fault{}, false)
+		}
 	}
 	return w
 }
 
+// pfx puts the stratum after the property prefix of a violation key ("c01" -> "c01:k").
+func (w *world) pfx(p string) string {
+	if w.st == "" {
+		return p
+	}
+	return p + ":" + w.st
+}
+
+func nonNil(cls []*envoyclient.Client) []*envoyclient.Client {
+	out := make([]*envoyclient.Client, 0, len(cls))
+	for _, cl := range cls {
+		if cl != nil {
+			out = append(out, cl)
+		}
+	}
+	return out
+}
+
+// clients returns all long-lived clients (SotW ones first) and the proxy index of each.
+func (w *world) clients() (cls []*envoyclient.Client, pidx []int) {
+	for pi, cl := range w.sotw {
+		if cl != nil {
+			cls, pidx = append(cls, cl), append(pidx, pi)
+		}
+	}
+	for pi, cl := range w.delta {
+		if cl != nil {
+			cls, pidx = append(cls, cl), append(pidx, pi)
+		}
+	}
+	return
+}
+
+// primary is the client whose state stands for "what the proxy holds" in coverage accounting.
+func (w *world) primary(pi int) *envoyclient.Client {
+	if w.sotw[pi] != nil {
+		return w.sotw[pi]
+	}
+	return w.delta[pi]
+}
+
 func (w *world) close() {
-	for _, cl := range append(append([]*envoyclient.Client{}, w.sotw...), w.delta...) {
+	cls, _ := w.clients()
+	for _, cl := range cls {
 		cl.Disconnect(false)
 	}
 	w.a.f.Done()
@@ -398,6 +581,35 @@ func (w *world) applyBatch(s *server, b []op) {
 	for _, o := range b {
 		if err := s.apply(o); err != nil {
 			vh.Abort("apply %s: %v", o, err)
+		}
+		if o.Z != nil {
+			if w.z != nil {
+				for _, od := range append([]*ztunnelclient.Client{w.z.od}, w.z.moreOD...) {
+					if o.Z.Sub {
+						od.Subscribe(o.Z.Key)
+					} else {
+						od.Unsubscribe(o.Z.Key)
+					}
+				}
+			}
+			continue
+		}
+		if o.K != nil {
+			prev, hadPrev := w.kube.objs[o.K.Kind+"/"+o.NS+"/"+o.Name]
+			if hadPrev && isUnexported(prev) || o.K.Obj != nil && isUnexported(o.K.Obj) {
+				w.touchedUnexported = true
+			}
+			w.noteProxyPod(o, prev)
+			w.kube.applied(o)
+		} else if o.Kind == gvk.ServiceEntry {
+			if w.liveSE == nil {
+				w.liveSE = map[string][]string{}
+			}
+			if o.Verb == "delete" {
+				delete(w.liveSE, o.NS+"/"+o.Name)
+			} else if se, ok := o.Spec.(*networking.ServiceEntry); ok {
+				w.liveSE[o.NS+"/"+o.Name] = append([]string(nil), se.Hosts...)
+			}
 		}
 		w.kindsCP[o.Kind.Kind] = true
 	}
@@ -412,10 +624,10 @@ func (w *world) changedKinds() string {
 	return strings.Join(ks, "+")
 }
 
-// freshStates builds a server from cfgs, connects fresh SotW clients for all proxies and
+// freshStates builds a server from cfgs (and kobjs), connects fresh SotW clients for all proxies and
 // returns their held state once quiescent. The server is torn down before returning.
-func freshStates(cfgs []config.Config, debounce time.Duration, also *server) ([]map[string]map[string]*anypb.Any, bool) {
-	b := newServer(cfgs, debounce)
+func freshStates(cfgs []config.Config, kobjs []kruntime.Object, debounce time.Duration, also *server) ([]map[string]map[string]*anypb.Any, bool) {
+	b := newServerK(cfgs, kobjs, debounce)
 	defer b.f.Done()
 	var cls []*envoyclient.Client
 	for _, p := range proxies {
@@ -424,6 +636,31 @@ func freshStates(cfgs []config.Config, debounce time.Duration, also *server) ([]
 		cls = append(cls, cl)
 	}
 	ok := quiesce(b, also)
+	if os.Getenv("XDSCONV_DUMP") != "" {
+		for _, x := range []*server{b, also} {
+			if x == nil {
+				continue
+			}
+			pc := x.srv.Env().PushContext()
+			for _, svc := range x.srv.Env().ServiceDiscovery.Services() {
+				shardSAs := "?"
+				if sh, f := x.srv.Env().EndpointIndex.ShardsForService(string(svc.Hostname), svc.Attributes.Namespace); f {
+					sh.RLock()
+					shardSAs = fmt.Sprint(sets.SortedList(sh.ServiceAccounts))
+					n := 0
+					for k, eps := range sh.Shards {
+						n += len(eps)
+						for _, e := range eps {
+							shardSAs += fmt.Sprintf(" {%s %v:%d %s sa=%q h=%v}", k, e.Addresses, e.EndpointPort, e.ServicePortName, e.ServiceAccount, e.HealthStatus)
+						}
+					}
+					shardSAs += fmt.Sprintf(" endpoints=%d", n)
+					sh.RUnlock()
+				}
+				fmt.Printf("DUMP-SA server=%p fresh=%v %s/%s pushctx=%v shard=%s\n", x, x == b, svc.Attributes.Namespace, svc.Hostname, pc.ServiceAccounts(svc.Hostname, svc.Attributes.Namespace), shardSAs)
+			}
+		}
+	}
 	var out []map[string]map[string]*anypb.Any
 	for _, cl := range cls {
 		if done, err, pan := cl.StreamErr(); done {
@@ -443,6 +680,28 @@ func freshStates(cfgs []config.Config, debounce time.Duration, also *server) ([]
 	return out, ok
 }
 
+// sotwView returns the state-of-the-world view of proxy pi on server s: the long-lived SotW client's state
+// if the proxy has one, else the state of a fresh SotW client with the same identity connected for the
+// occasion (only at quiescent points, and disconnected again before anything else happens).
+func (w *world) sotwView(s *server, pi int) (map[string]map[string]*anypb.Any, bool) {
+	if w.sotw[pi] != nil {
+		return w.sotw[pi].Snapshot(), true
+	}
+	cl := newClient(proxies[pi], false, "/fresh-same-server")
+	cl.Connect(s.srv.Discovery, envoyclient.Fault{}, false)
+	ok := quiesce(s)
+	if done, err, pan := cl.StreamErr(); done {
+		fmt.Printf("FRESH-STREAM-ENDED %s err=%v panic=%s\n", cl.Name, err, firstLine(pan))
+		ok = false
+	}
+	if resp, _ := cl.ResponsesOnStream(); resp[envoyclient.CDS] == 0 || resp[envoyclient.LDS] == 0 {
+		ok = false
+	}
+	snap := cl.Snapshot()
+	cl.Disconnect(false)
+	return snap, quiesce(s) && ok
+}
+
 // forcePush makes server s regenerate everything for everybody.
 func forcePush(s *server) bool {
 	s.srv.Discovery.ConfigUpdate(&model.PushRequest{Forced: true, Reason: model.NewReasonStats(model.DebugTrigger)})
@@ -450,42 +709,64 @@ func forcePush(s *server) bool {
 }
 
 // checkAgainstFresh is the C01 oracle for the given long-lived clients of server s.
-// prefix distinguishes the caller (c01 / c05) in violation keys.
+// prefix distinguishes the caller (c01 / c05, plus the stratum) in violation keys.
 func (w *world) checkAgainstFresh(s *server, clients []*envoyclient.Client, pidx []int, prefix, ctxInfo string) (compared int, ok bool) {
 	c := w.c
 	cfgs := s.snapshot()
-	fresh, okq := freshStates(cfgs, 2*time.Millisecond, s)
+	kobjs := w.kube.list()
+	fresh, okq := freshStates(cfgs, kobjs, 2*time.Millisecond, s)
 	if !okq {
 		c.Inconclusive("fresh server did not quiesce")
 		return 0, false
 	}
 	var fresh2 []map[string]map[string]*anypb.Any
+	// what every client holds NOW, before any triage: the forced pushes of the triage repair stale resources
+	// of all clients at once, so nothing may be looked at for the first time after them
+	helds := make([]map[string]map[string]*anypb.Any, len(clients))
+	alldiffs := make([][]diff, len(clients))
+	anyDiff := false
 	for i, cl := range clients {
-		held := cl.Snapshot()
-		for _, m := range held {
+		helds[i] = cl.Snapshot()
+		for _, m := range helds[i] {
 			compared += len(m)
 		}
-		diffs := compare(held, fresh[pidx[i]], "long-lived", "fresh")
+		alldiffs[i] = compare(helds[i], fresh[pidx[i]], "long-lived", "fresh")
+		if len(alldiffs[i]) > 0 {
+			anyDiff = true
+			c.Count("mismatches_before_triage", len(alldiffs[i]))
+		}
+	}
+	if !anyDiff {
+		return compared, true
+	}
+	// triage 1: does a forced push change the long-lived clients' copies?
+	if !forcePush(s) {
+		c.Inconclusive("forced push did not quiesce")
+		return compared, false
+	}
+	helds2 := make([]map[string]map[string]*anypb.Any, len(clients))
+	for i, cl := range clients {
+		helds2[i] = cl.Snapshot()
+	}
+	if !forcePush(s) {
+		c.Inconclusive("forced push did not quiesce")
+		return compared, false
+	}
+	for i, cl := range clients {
+		diffs := alldiffs[i]
 		if len(diffs) == 0 {
 			continue
 		}
-		c.Count("mismatches_before_triage", len(diffs))
-		// triage 1: does a forced push change the long-lived client's copy?
-		if !forcePush(s) {
-			c.Inconclusive("forced push did not quiesce")
-			return compared, false
-		}
-		held2 := cl.Snapshot()
-		if !forcePush(s) {
-			c.Inconclusive("forced push did not quiesce")
-			return compared, false
-		}
-		held3 := cl.Snapshot()
+		held, held2, held3 := helds[i], helds2[i], cl.Snapshot()
 		svcKeyDropped := false
 		for _, d := range diffs {
-			if s.causeOf(proxies[pidx[i]], d.Type, d.Name) != "unknown" {
+			if s.causeOf(proxies[pidx[i]], d.Type, d.Name) == causeKeyDropped {
 				svcKeyDropped = true
 			}
+		}
+		var classes map[string]string
+		if w.st != "" {
+			classes = classifyDiffs(diffs, held2, fresh[pidx[i]], w.hostInfo)
 		}
 		for _, d := range diffs {
 			t, n := d.Type, d.Name
@@ -507,20 +788,38 @@ func (w *world) checkAgainstFresh(s *server, clients []*envoyclient.Client, pidx
 				if cause == "unknown" && svcKeyDropped && (t == envoyclient.LDS || t == envoyclient.RDS) {
 					cause = "co-occurs-with-service-key-dropped-by-proxy-dependency-filter"
 				}
+				if cause == "unknown" && (t == envoyclient.LDS || t == envoyclient.RDS) {
+					// a listener / route that differs in the clusters it references: was the service key of such a hostname
+					// dropped by the per-proxy dependency filter (the known defect, seen here without a cluster difference
+					// on this client: a later full CDS repaired the clusters, nothing repaired the route)?
+					for _, h := range hostsReferencedByOneOnly(resourceFullText(r1), resourceFullText(rf)) {
+						if s.pushes.serviceKeyDropped(proxies[pidx[i]].name+"."+proxies[pidx[i]].ns, h) {
+							cause = causeKeyDropped
+							break
+						}
+					}
+				}
 				ckey := "cause=" + cause
 				if cause == "unknown" {
 					ckey += ":changed=" + w.changedKinds()
 				}
-				c.Violation(fmt.Sprintf("%s:stale-until-forced-push:%s:%s:%s:proxy=%s:client=%s", prefix, ckey, whatKey(d.What), envoyclient.Short(t), proxies[pidx[i]].ptype, protoOf(cl)),
+				skey := fmt.Sprintf("%s:stale-until-forced-push:%s:%s:%s:proxy=%s:client=%s", prefix, ckey, whatKey(d.What), envoyclient.Short(t), proxies[pidx[i]].ptype, protoOf(cl))
+				if w.st != "" {
+					// new strata: resource class and root-cause hints first, volatile detail (changed kinds) in the message only
+					cause = w.refineCause(cause, proxies[pidx[i]], t, n, d, classes[d.String()], r1, rf)
+					skey = fmt.Sprintf("%s:stale-until-forced-push:cause=%s:%s:%s:%s:proxy=%s:client=%s", prefix, cause, envoyclient.Short(t), resClass(t, n), whatKey(d.What), proxies[pidx[i]].ptype, protoOf(cl))
+				}
+				c.Violation(skey,
 					fmt.Sprintf("%s client %s: %s; a forced push brings it to the fresh state, so a push that should have carried it was skipped or narrowed. %s. diff: %s",
 						prefix, cl.Name, d, ctxInfo, firstTextDiff(resourceText(t, r1), resourceText(t, rf))),
-					map[string]any{"client": cl.Name, "scenario": w.scenInfo[cl.Name], "resource": d.String(), "history": histText(w.hist, w.applied), "context": ctxInfo})
+					map[string]any{"client": cl.Name, "scenario": w.scenInfo[cl.Name], "resource": d.String(), "history": histText(w.hist, w.applied), "context": ctxInfo,
+						"pushlog": s.pushes.tail(proxies[pidx[i]].name+"."+proxies[pidx[i]].ns, 12)})
 				continue
 			}
 			// still different from the fresh server after forced pushes: history dependence or instance nondeterminism?
 			if fresh2 == nil {
 				var ok2 bool
-				fresh2, ok2 = freshStates(cfgs, 2*time.Millisecond, s)
+				fresh2, ok2 = freshStates(cfgs, kobjs, 2*time.Millisecond, s)
 				if !ok2 {
 					c.Inconclusive("second fresh server did not quiesce")
 					return compared, false
@@ -532,10 +831,34 @@ func (w *world) checkAgainstFresh(s *server, clients []*envoyclient.Client, pidx
 				c.SetAdd("excluded_instance_nondeterministic_detail", envoyclient.Short(t)+" "+n+": "+firstTextDiff(resourceText(t, rf), resourceText(t, fresh2[pidx[i]][t][n])))
 				continue
 			}
-			c.Violation(fmt.Sprintf("%s:history-dependent:%s:proxy=%s:%s", prefix, envoyclient.Short(t), proxies[pidx[i]].ptype, whatKey(d.What)),
+			if os.Getenv("XDSCONV_DUMP") != "" {
+				full := func(a *anypb.Any) string {
+					if a == nil {
+						return "<absent>"
+					}
+					m, err := a.UnmarshalNew()
+					if err != nil {
+						return "<undecodable>"
+					}
+					return prototext.MarshalOptions{Multiline: false}.Format(m)
+				}
+				fmt.Printf("DUMP history-dependent %s %s %s\n  LONG-LIVED: %s\n  FRESH: %s\n", cl.Name, envoyclient.Short(t), n, full(r2), full(rf))
+			}
+			hkey := fmt.Sprintf("%s:history-dependent:%s:proxy=%s:%s", prefix, envoyclient.Short(t), proxies[pidx[i]].ptype, whatKey(d.What))
+			if w.st != "" {
+				// new strata: root-cause hint before the proxy type, so that a family can be named by prefix
+				cls := classes[d.String()]
+				if pc := w.proxyCause(s, proxies[pidx[i]]); pc != "" {
+					// the proxy's own state (workload labels, service targets) is known to be stale: everything derived from it differs
+					cls = pc
+				}
+				hkey = fmt.Sprintf("%s:history-dependent:%s:%s:%s:%s:proxy=%s", prefix, cls, envoyclient.Short(t), resClass(t, n), whatKey(d.What), proxies[pidx[i]].ptype)
+			}
+			c.Violation(hkey,
 				fmt.Sprintf("%s client %s: %s even after forced pushes, while two fresh control planes built from the final state agree with each other. %s. diff: %s",
 					prefix, cl.Name, d, ctxInfo, firstTextDiff(resourceText(t, r2), resourceText(t, rf))),
-				map[string]any{"client": cl.Name, "resource": d.String(), "history": histText(w.hist, w.applied), "context": ctxInfo})
+				map[string]any{"client": cl.Name, "resource": d.String(), "history": histText(w.hist, w.applied), "context": ctxInfo,
+					"pushlog": s.pushes.tail(proxies[pidx[i]].name+"."+proxies[pidx[i]].ns, 12)})
 		}
 	}
 	return compared, true
@@ -567,6 +890,12 @@ func histText(h [][]op, upto int) []string {
 		var parts []string
 		for _, o := range b {
 			s := o.String()
+			if o.K != nil {
+				s += " [" + o.K.Note + "]"
+				if o.K.Obj != nil {
+					s += " " + kubeText(o.K.Obj)
+				}
+			}
 			if o.Spec != nil {
 				if m, ok := o.Spec.(proto.Message); ok {
 					txt := prototext.MarshalOptions{Multiline: false}.Format(m)
@@ -594,7 +923,9 @@ func allIdx() []int {
 func sumStats(cls []*envoyclient.Client, key string) int {
 	n := 0
 	for _, cl := range cls {
-		n += cl.StatsCopy()[key]
+		if cl != nil {
+			n += cl.StatsCopy()[key]
+		}
 	}
 	return n
 }
@@ -604,10 +935,108 @@ func histHash(h [][]op) string {
 	for _, b := range h {
 		for _, o := range b {
 			parts = append(parts, o.String())
+			if o.K != nil {
+				parts = append(parts, o.K.Note)
+			}
 		}
 		parts = append(parts, "|")
 	}
 	return vh.Hash(parts)
+}
+
+// ---------------------------------------------------------------------------------------
+// strata
+
+// A stratum is a family of cases with its own case names, PRNG streams, proxies and world. The
+// config-store stratum ("c") is the one the checks were first qualified on; its cases, streams and
+// keys never change. Strata are switched with XDSCONV_STRATA (comma separated); strata that are not
+// qualified yet are off by default.
+type stratum struct {
+	id        string // "" | "k" | "z" (as it appears in keys)
+	sw        string // name in XDSCONV_STRATA
+	histCase  string // case name of C01/C03 histories
+	reconCase string // case name of C05 histories
+	nHist     [2]int // quick, thorough
+	nRecon    [2]int
+	proxies   []proxySpec
+}
+
+var (
+	stratumC = &stratum{id: "", sw: "c", histCase: "history", reconCase: "reconnect", nHist: [2]int{72, 600}, nRecon: [2]int{18, 200}, proxies: proxies}
+	stratumK = &stratum{id: "k", sw: "k", histCase: "khist", reconCase: "kreconnect", nHist: [2]int{18, 150}, nRecon: [2]int{6, 60}, proxies: proxiesK}
+	strata   = []*stratum{stratumC, stratumK}
+)
+
+const defaultStrata = "c"
+
+func (st *stratum) enabled() bool {
+	v := os.Getenv("XDSCONV_STRATA")
+	if v == "" {
+		v = defaultStrata
+	}
+	for _, x := range strings.Split(v, ",") {
+		if strings.TrimSpace(x) == st.sw {
+			return true
+		}
+	}
+	return false
+}
+
+// use makes the stratum's proxies current for the duration of a case (cases run sequentially in a child).
+func (st *stratum) use() (restore func()) {
+	saved := proxies
+	proxies = st.proxies
+	return func() { proxies = saved }
+}
+
+// minNontrivial is the floor of distinct non-trivial cases; in addition every enabled stratum must have
+// contributed (counter <stratum>_nontrivial of the evidence file the parent has just written for this run),
+// otherwise the floor becomes unreachable and the check reports BROKEN instead of a verdict.
+func minNontrivial(id string, base map[string]int) func(string) int {
+	return func(tier string) int {
+		if reproSelected() != "" {
+			return 1
+		}
+		floor := base[tier]
+		if !strata[0].enabled() {
+			// development configuration without the config-store stratum the floors were measured on
+			floor = 1
+		}
+		root := os.Getenv("VERIF_OUT")
+		if root == "" {
+			root = vh.VerifRoot
+		}
+		b, err := os.ReadFile(root + "/evidence/" + id + ".json")
+		if err != nil {
+			return floor
+		}
+		var ev struct {
+			Tier     string `json:"tier"`
+			Coverage struct {
+				Counters map[string]int64 `json:"counters"`
+			} `json:"coverage"`
+		}
+		if json.Unmarshal(b, &ev) != nil || ev.Tier != tier {
+			return floor
+		}
+		for _, st := range strata {
+			if st.id == "" || !st.enabled() {
+				continue
+			}
+			if ev.Coverage.Counters[st.id+"_nontrivial"] == 0 {
+				fmt.Printf("BROKEN-STRATUM: stratum %q is enabled but contributed no non-trivial case (counter %s_nontrivial == 0)\n", st.sw, st.id)
+				return 1 << 30
+			}
+		}
+		return floor
+	}
+}
+
+func tierIdx(c *vh.Ctx) int {
+	if c.Quick() {
+		return 0
+	}
+	return 1
 }
 
 // ---------------------------------------------------------------------------------------
@@ -617,169 +1046,292 @@ func runC01(c *vh.Ctx) { runHistories(c, true, false) }
 func runC03(c *vh.Ctx) { runHistories(c, false, true) }
 
 func runHistories(c *vh.Ctx, c01, c03 bool) {
-	n := c.N(72, 600)
-	for i := 0; i < n; i++ {
-		if !c.Mine(i) {
+	if reproSelected() != "" {
+		// scripted minimal histories of known findings only (krepro.go)
+		if c01 {
+			runRepros(c)
+		}
+		return
+	}
+	for _, st := range strata {
+		if !st.enabled() {
 			continue
 		}
-		c.Case(fmt.Sprintf("history/%d", i), func() {
-			r := c.Rng("history", i)
-			nops := 12 + r.Intn(c.N(20, 50))
-			hist := genHistory(r, nops)
-			w := newWorld(c, time.Duration(1+r.Intn(5))*time.Millisecond)
-			defer w.close()
-			w.hist = hist
-			if !quiesce(w.a) {
-				c.Inconclusive("initial sync did not quiesce")
+		n := st.nHist[tierIdx(c)]
+		for i := 0; i < n; i++ {
+			if !c.Mine(i) {
+				continue
+			}
+			c.Case(fmt.Sprintf("%s/%d", st.histCase, i), func() {
+				defer st.use()()
+				if st.id == "z" {
+					zhistoryCase(c, st, i, c01, c03)
+				} else {
+					historyCase(c, st, i, c01, c03)
+				}
+			})
+		}
+	}
+}
+
+func historyCase(c *vh.Ctx, st *stratum, i int, c01, c03 bool) {
+	var hist [][]op
+	var settled []bool // strata with Kubernetes objects: the simulated EndpointSlice controller has caught up after batch i
+	var w *world
+	switch st.id {
+	case "":
+		r := c.Rng("history", i)
+		nops := 12 + r.Intn(c.N(20, 50))
+		hist = genHistory(r, nops)
+		w = newWorld(c, time.Duration(1+r.Intn(5))*time.Millisecond)
+	case "k":
+		r := c.Rng("khist", i)
+		nops := 30 + r.Intn(c.N(30, 60))
+		kinit, h, st := genKHistory(r, nops)
+		hist, settled = h, st
+		w = newWorldK(c, time.Duration(1+r.Intn(5))*time.Millisecond, "k", kinit)
+	}
+	defer w.close()
+	w.hist = hist
+	if os.Getenv("XDSCONV_PRINT_HIST") != "" {
+		for _, l := range histText(hist, len(hist)) {
+			fmt.Println("HIST " + l)
+		}
+	}
+	propKey := strings.ToLower(c.Prop.ID)
+	if !quiesce(w.a) {
+		c.Inconclusive("initial sync did not quiesce")
+		return
+	}
+	// a checkpoint after every batch: a stale resource is often repaired by the next unrelated push
+	checkpoints := map[int]bool{}
+	for k := range hist {
+		checkpoints[k] = settled == nil || settled[k]
+	}
+	removalsSeen, changed := false, false
+	prevSkip, prevNarrow, _ := w.a.gen.totals()
+	var prevState []map[string]map[string]*anypb.Any
+	for pi := range proxies {
+		prevState = append(prevState, w.primary(pi).Snapshot())
+	}
+	all, allPidx := w.clients()
+	nCheckpoints := 0
+	for bi, b := range hist {
+		w.applyBatch(w.a, b)
+		w.applied = bi + 1
+		if !quiesce(w.a) {
+			c.Inconclusive(fmt.Sprintf("batch %d did not quiesce", bi))
+			return
+		}
+		if validateIdle && !w.stableAfterIdle() {
+			c.Violation(w.pfx(propKey)+":harness:quiescence-detector-returned-early", fmt.Sprintf("after batch %d the process was declared idle but something still changed afterwards", bi), map[string]any{"history": histText(hist, bi+1)})
+			return
+		}
+		c.Count("batches", 1)
+		c.Count("ops", len(b))
+		for pi := range proxies {
+			for n := range w.primary(pi).Snapshot()[envoyclient.CDS] {
+				if parts := strings.Split(n, "|"); len(parts) == 4 && parts[2] != "" {
+					c.Count("subset_clusters_held_observations", 1)
+				}
+			}
+		}
+		c.SetAdd("batch_sizes", fmt.Sprint(len(b)))
+		for _, o := range b {
+			c.SetAdd("op_kinds", o.Verb+" "+o.Kind.Kind)
+			if o.K != nil {
+				c.Count("kube_ops:"+o.Verb+"_"+o.K.Kind, 1)
+				c.Count(st.id+"_kube_ops", 1)
+			} else if st.id != "" {
+				c.Count(st.id+"_config_ops", 1)
+			}
+		}
+		propLower := strings.ToLower(c.Prop.ID)
+		w.warmingCheck(propLower, "long-lived", all, nil)
+		// every stream must still be up
+		for _, cl := range all {
+			if done, err, pan := cl.StreamErr(); done {
+				if pan != "" {
+					key := "stream-handler-panic:" + vh.TopIstioFrame(pan)
+					if st.id != "" {
+						key = w.pfx(propKey) + ":" + key
+					}
+					c.Violation(key, fmt.Sprintf("server stream handler of %s panicked: %s", cl.Name, firstLine(pan)), map[string]any{"history": histText(hist, bi+1)})
+				} else {
+					c.Inconclusive(fmt.Sprintf("stream of %s ended: %v", cl.Name, err))
+				}
 				return
 			}
-			// a checkpoint after every batch: a stale resource is often repaired by the next unrelated push
-			checkpoints := map[int]bool{}
-			for k := range hist {
-				checkpoints[k] = true
+		}
+		if c03 {
+			// first what every pair holds NOW, then the triage (its forced pushes repair all clients at once)
+			type pairDiff struct {
+				pi     int
+				hs, hd map[string]map[string]*anypb.Any
+				diffs  []diff
 			}
-			removalsSeen, changed := false, false
-			prevSkip, prevNarrow, _ := w.a.gen.totals()
-			var prevState []map[string]map[string]*anypb.Any
-			for _, cl := range w.sotw {
-				prevState = append(prevState, cl.Snapshot())
-			}
-			for bi, b := range hist {
-				w.applyBatch(w.a, b)
-				w.applied = bi + 1
-				if !quiesce(w.a) {
-					c.Inconclusive(fmt.Sprintf("batch %d did not quiesce", bi))
+			var pds []pairDiff
+			for pi := range proxies {
+				if w.delta[pi] == nil {
+					continue
+				}
+				hs, ok := w.sotwView(w.a, pi)
+				if !ok {
+					c.Inconclusive("fresh SotW client on the same server did not quiesce")
 					return
 				}
-				c.Count("batches", 1)
-				c.Count("ops", len(b))
-				for _, cl := range w.sotw {
-					for n := range cl.Snapshot()[envoyclient.CDS] {
-						if parts := strings.Split(n, "|"); len(parts) == 4 && parts[2] != "" {
-							c.Count("subset_clusters_held_observations", 1)
-						}
-					}
+				hd := w.delta[pi].Snapshot()
+				for _, m := range hs {
+					c.Count("resources_compared", len(m))
 				}
-				c.SetAdd("batch_sizes", fmt.Sprint(len(b)))
-				for _, o := range b {
-					c.SetAdd("op_kinds", o.Verb+" "+o.Kind.Kind)
+				if w.sotw[pi] == nil {
+					c.Count("delta_vs_fresh_sotw_on_same_server", 1)
 				}
-				// every stream must still be up
-				for _, cl := range append(append([]*envoyclient.Client{}, w.sotw...), w.delta...) {
-					if done, err, pan := cl.StreamErr(); done {
-						if pan != "" {
-							c.Violation("stream-handler-panic:"+vh.TopIstioFrame(pan), fmt.Sprintf("server stream handler of %s panicked: %s", cl.Name, firstLine(pan)), map[string]any{"history": histText(hist, bi+1)})
-						} else {
-							c.Inconclusive(fmt.Sprintf("stream of %s ended: %v", cl.Name, err))
-						}
-						return
-					}
+				if diffs := compare(hd, hs, "delta", "sotw"); len(diffs) > 0 {
+					c.Count("mismatches_before_triage", len(diffs))
+					pds = append(pds, pairDiff{pi, hs, hd, diffs})
 				}
-				if c03 {
-					for pi := range proxies {
-						hs, hd := w.sotw[pi].Snapshot(), w.delta[pi].Snapshot()
-						for _, m := range hs {
-							c.Count("resources_compared", len(m))
-						}
-						diffs := compare(hd, hs, "delta", "sotw")
-						if len(diffs) > 0 {
-							c.Count("mismatches_before_triage", len(diffs))
-							if !forcePush(w.a) {
-								c.Inconclusive("forced push did not quiesce")
-								return
-							}
-							s2 := w.sotw[pi].Snapshot()
-							if !forcePush(w.a) {
-								c.Inconclusive("forced push did not quiesce")
-								return
-							}
-							s3 := w.sotw[pi].Snapshot()
-							for _, d := range diffs {
-								x, y := s2[d.Type][d.Name], s3[d.Type][d.Name]
-								if (x == nil) != (y == nil) || (x != nil && !proto.Equal(canon(d.Type, x), canon(d.Type, y))) {
-									c.Count("excluded_nondeterministic", 1)
-									continue
-								}
-								cause := w.a.causeOf(proxies[pi], d.Type, d.Name)
-								ckey := "cause=" + cause
-								if cause == "unknown" {
-									ckey += ":changed=" + kindsOf(b)
-								}
-								c.Violation(fmt.Sprintf("c03:delta-differs-from-sotw:%s:%s:%s:proxy=%s", ckey, whatKey2(d.What), envoyclient.Short(d.Type), proxies[pi].ptype),
-									fmt.Sprintf("after batch %d the delta client of %s and its SotW twin disagree: %s; diff: %s", bi, proxies[pi].name, d,
-										firstTextDiff(resourceText(d.Type, hd[d.Type][d.Name]), resourceText(d.Type, hs[d.Type][d.Name]))),
-									map[string]any{"proxy": proxies[pi].name, "resource": d.String(), "history": histText(hist, bi+1)})
-							}
-						}
-					}
-					for _, cl := range w.delta {
-						for _, v := range cl.ViolationsCopy() {
-							c.Violation("c03:delta-protocol-sanity", cl.Name+": "+v, map[string]any{"history": histText(hist, bi+1)})
-						}
-					}
+			}
+			if len(pds) > 0 {
+				if !forcePush(w.a) {
+					c.Inconclusive("forced push did not quiesce")
+					return
 				}
-				if c01 && checkpoints[bi] {
-					// were pushes skipped or narrowed since the previous checkpoint?
-					sk, nw, _ := w.a.gen.totals()
-					skipped := sk > prevSkip || nw > prevNarrow
-					c.Count("generator_calls_skipped", sk-prevSkip)
-					c.Count("generator_calls_narrowed", nw-prevNarrow)
-					prevSkip, prevNarrow = sk, nw
-					for _, cl := range w.sotw {
-						for t, m := range cl.Snapshot() {
-							c.Max("held_"+envoyclient.Short(t), len(m))
-						}
-					}
-					for pi, cl := range w.sotw {
-						cur := cl.Snapshot()
-						if len(compare(cur, prevState[pi], "now", "before")) > 0 {
-							changed = true
-						}
-						prevState[pi] = cur
-					}
-					info := fmt.Sprintf("checkpoint after batch %d of history/%d (kinds changed since previous checkpoint: %s)", bi, i, w.changedKinds())
-					both := append(append([]*envoyclient.Client{}, w.sotw...), w.delta...)
-					n1, ok := w.checkAgainstFresh(w.a, both, append(allIdx(), allIdx()...), "c01", info)
+				s2s := map[int]map[string]map[string]*anypb.Any{}
+				for _, pd := range pds {
+					v, ok := w.sotwView(w.a, pd.pi)
 					if !ok {
+						c.Inconclusive("fresh SotW client on the same server did not quiesce")
 						return
 					}
-					c.Count("resources_compared", n1)
-					c.Count("checkpoints", 1)
-					if skipped {
-						c.Count("checkpoints_with_skipped_or_narrowed_pushes", 1)
+					s2s[pd.pi] = v
+				}
+				if !forcePush(w.a) {
+					c.Inconclusive("forced push did not quiesce")
+					return
+				}
+				for _, pd := range pds {
+					pi, hs, hd := pd.pi, pd.hs, pd.hd
+					s2 := s2s[pi]
+					s3, ok3 := w.sotwView(w.a, pi)
+					if !ok3 {
+						c.Inconclusive("fresh SotW client on the same server did not quiesce")
+						return
 					}
-					if skipped && changed {
-						c.Nontrivial(histHash(hist) + fmt.Sprint(bi))
+					for _, d := range pd.diffs {
+						x, y := s2[d.Type][d.Name], s3[d.Type][d.Name]
+						if (x == nil) != (y == nil) || (x != nil && !proto.Equal(canon(d.Type, x), canon(d.Type, y))) {
+							c.Count("excluded_nondeterministic", 1)
+							continue
+						}
+						cause := w.a.causeOf(proxies[pi], d.Type, d.Name)
+						ckey := "cause=" + cause
+						if cause == "unknown" {
+							ckey += ":changed=" + kindsOf(b)
+						}
+						if st.id != "" {
+							if _, _, h, _ := model.ParseSubsetKey(d.Name); h != "" && w.hostSquatted(string(h)) {
+								cause = "hostname-served-by-serviceentry-and-kubernetes-in-one-namespace"
+							} else if x, y := hd[d.Type][d.Name], hs[d.Type][d.Name]; d.Type == envoyclient.CDS && x != nil && y != nil &&
+								sanRe.ReplaceAllString(resourceText(d.Type, x), "") == sanRe.ReplaceAllString(resourceText(d.Type, y), "") {
+								cause = "subject-alt-names-only"
+							}
+							ckey = "cause=" + cause // volatile detail (changed kinds) stays in the message
+						}
+						c.Violation(fmt.Sprintf("%s:delta-differs-from-sotw:%s:%s:%s:proxy=%s", w.pfx("c03"), ckey, whatKey2(d.What), envoyclient.Short(d.Type), proxies[pi].ptype),
+							fmt.Sprintf("after batch %d (%s) the delta client of %s and its SotW twin disagree: %s; diff: %s", bi, kindsOf(b), proxies[pi].name, d,
+								firstTextDiff(resourceText(d.Type, hd[d.Type][d.Name]), resourceText(d.Type, hs[d.Type][d.Name]))),
+							map[string]any{"proxy": proxies[pi].name, "resource": d.String(), "history": histText(hist, bi+1),
+								"pushlog": w.a.pushes.tail(proxies[pi].name+"."+proxies[pi].ns, 12)})
 					}
-					w.kindsCP = map[string]bool{}
 				}
 			}
-			if sumStats(w.delta, "delta_responses_with_removals") > 0 {
-				removalsSeen = true
-				c.Count("histories_with_delta_removals", 1)
-			}
-			c.Count("delta_responses_with_removals", sumStats(w.delta, "delta_responses_with_removals"))
-			c.Count("histories", 1)
-			for _, t := range []string{"CDS", "EDS", "LDS", "RDS"} {
-				c.Count("responses_"+t, sumStats(w.sotw, "responses_"+t)+sumStats(w.delta, "responses_"+t))
-			}
-			c.Count("subscription_changes", sumStats(w.sotw, "subscription_changes_EDS")+sumStats(w.sotw, "subscription_changes_RDS"))
-			if c03 {
-				// non-trivial for C03: removals seen and something changed
-				any := false
-				for pi, cl := range w.sotw {
-					if len(compare(cl.Snapshot(), prevState[pi], "now", "before")) > 0 {
-						any = true
-					}
-				}
-				if removalsSeen && any {
-					c.Nontrivial(histHash(hist))
+			for _, cl := range nonNil(w.delta) {
+				for _, v := range cl.ViolationsCopy() {
+					c.Violation(w.pfx("c03")+":delta-protocol-sanity", cl.Name+": "+v, map[string]any{"history": histText(hist, bi+1)})
 				}
 			}
-			if i < 2 {
-				c.Sample(map[string]any{"history": histText(hist, len(hist)), "clients": len(w.sotw) + len(w.delta)})
+		}
+		if c01 && checkpoints[bi] {
+			// were pushes skipped or narrowed since the previous checkpoint?
+			sk, nw, _ := w.a.gen.totals()
+			skipped := sk > prevSkip || nw > prevNarrow
+			c.Count("generator_calls_skipped", sk-prevSkip)
+			c.Count("generator_calls_narrowed", nw-prevNarrow)
+			prevSkip, prevNarrow = sk, nw
+			for pi := range proxies {
+				for t, m := range w.primary(pi).Snapshot() {
+					c.Max("held_"+envoyclient.Short(t), len(m))
+				}
 			}
-		})
+			for pi := range proxies {
+				cur := w.primary(pi).Snapshot()
+				if len(compare(cur, prevState[pi], "now", "before")) > 0 {
+					changed = true
+				}
+				prevState[pi] = cur
+			}
+			info := fmt.Sprintf("checkpoint after batch %d of %s/%d (kinds changed since previous checkpoint: %s)", bi, st.histCase, i, w.changedKinds())
+			n1, ok := w.checkAgainstFresh(w.a, all, allPidx, w.pfx("c01"), info)
+			if !ok {
+				return
+			}
+			c.Count("resources_compared", n1)
+			c.Count("checkpoints", 1)
+			// evaluations count checkpoints (the unit distinct_nontrivial counts); the case itself was counted once
+			if nCheckpoints++; nCheckpoints > 1 {
+				c.AddEvaluations(1)
+			}
+			if st.id != "" {
+				c.Count(st.id+"_checkpoints", 1)
+			}
+			if skipped {
+				c.Count("checkpoints_with_skipped_or_narrowed_pushes", 1)
+			}
+			if skipped && changed {
+				c.Nontrivial(st.id + histHash(hist) + fmt.Sprint(bi))
+				if st.id != "" {
+					c.Count(st.id+"_nontrivial", 1)
+				}
+			}
+			w.kindsCP = map[string]bool{}
+			w.touchedUnexported = false
+		}
+	}
+	if sumStats(w.delta, "delta_responses_with_removals") > 0 {
+		removalsSeen = true
+		c.Count("histories_with_delta_removals", 1)
+	}
+	c.Count("delta_responses_with_removals", sumStats(w.delta, "delta_responses_with_removals"))
+	c.Count("histories", 1)
+	if st.id != "" {
+		c.Count(st.id+"_histories", 1)
+	}
+	for _, t := range []string{"CDS", "EDS", "LDS", "RDS"} {
+		c.Count("responses_"+t, sumStats(w.sotw, "responses_"+t)+sumStats(w.delta, "responses_"+t))
+	}
+	c.Count("subscription_changes", sumStats(w.sotw, "subscription_changes_EDS")+sumStats(w.sotw, "subscription_changes_RDS"))
+	if st.id != "" {
+		w.a.pushEvidence(c, st.id)
+	}
+	if c03 {
+		// non-trivial for C03: removals seen and something changed
+		any := false
+		for pi := range proxies {
+			if len(compare(w.primary(pi).Snapshot(), prevState[pi], "now", "before")) > 0 {
+				any = true
+			}
+		}
+		if removalsSeen && any {
+			c.Nontrivial(st.id + histHash(hist))
+			if st.id != "" {
+				c.Count(st.id+"_nontrivial", 1)
+			}
+		}
+	}
+	if i < 2 {
+		nc, _ := w.clients()
+		c.Sample(map[string]any{"stratum": st.sw, "history": histText(hist, len(hist)), "clients": len(nc)})
 	}
 }
 
